@@ -6,6 +6,7 @@ import (
 	"time"
 
 	"github.com/KevoDB/kevo/pkg/stats"
+	"github.com/KevoDB/kevo/pkg/verifhook"
 )
 
 // Manager implements the TransactionManager interface
@@ -91,6 +92,8 @@ func (m *Manager) BeginTransaction(readOnly bool) (Transaction, error) {
 	// Set transaction as active
 	tx.active.Store(true)
 
+	verifhook.At1("tx.begin.wait", uint64(mode))
+
 	// Acquire appropriate lock
 	if mode == ReadOnly {
 		m.txLock.RLock()
@@ -99,6 +102,7 @@ func (m *Manager) BeginTransaction(readOnly bool) (Transaction, error) {
 		m.txLock.Lock()
 		tx.hasWriteLock.Store(true)
 	}
+	verifhook.At1("tx.begin.granted", uint64(mode))
 
 	return tx, nil
 }
